@@ -573,6 +573,22 @@ impl KeyUniverse {
                 keys.push(k);
             }
         }
+        // fan-out: up to 16 children below one node (branching on the high or on the low nibble)
+        if rng.chance(1, 3) {
+            let base = rng.pick(&keys).clone();
+            let high = rng.chance(1, 2);
+            let fixed = rng.next() as u8;
+            let n = 3 + rng.below(14);
+            for _ in 0..n {
+                let i = rng.below(16) as u8;
+                let mut k = base.clone();
+                k.push(if high { (i << 4) | (fixed & 0x0f) } else { (fixed & 0xf0) | i });
+                if rng.chance(1, 4) {
+                    k.push(*rng.pick(&SPECIAL));
+                }
+                keys.push(k);
+            }
+        }
         if rng.chance(1, 3) {
             keys.push(vec![]);
         }
